@@ -31,3 +31,14 @@ Proof. exact restart_forgets. Qed.
 Theorem C14_validater_uses_current_password : forall s draws uname k,
   validater (restart s draws) uname = Some k -> k = l_pwd (restart s draws).
 Proof. exact restart_validater_current. Qed.
+
+(** a check whose USERNAME starts with any other ufrag of the default length — in particular the pre-restart one — is handed no password,
+    so it cannot be authenticated; the current ufrag is always accepted *)
+Theorem C14_validater_rejects_other_ufrag : forall s draws u0 rest, enough draws ->
+  length u0 = DEF_UFRAG_LEN -> u0 <> l_ufrag (restart s draws) ->
+  validater (restart s draws) (u0 ++ rest) = None.
+Proof. exact restart_rejects_other_ufrag. Qed.
+
+Theorem C14_validater_accepts_current_ufrag : forall s draws rest, enough draws ->
+  validater (restart s draws) (l_ufrag (restart s draws) ++ rest) = Some (l_pwd (restart s draws)).
+Proof. exact restart_accepts_current_ufrag. Qed.
